@@ -1000,6 +1000,7 @@ Op Gen::anyOp(int scale, int forcedFn) {
                 op.cells.push_back(r.chance(0.2) ? nearPentagon(res, 3)
                                                  : randCell(res));
             op.ints = {(int64_t)r.below(5)};
+            if (r.chance(0.04)) op.ints[0] = -1;  // maxGridDiskSize error before anything is written
             break;
         }
         case FN_degsToRads:
@@ -1053,6 +1054,8 @@ Op Gen::anyOp(int scale, int forcedFn) {
             if (r.chance(0.1)) op.str = "zzz";
             if (r.chance(0.05)) op.str = "";
             if (r.chance(0.05)) op.str += "ffffffffffffffffffff";
+            if (r.chance(0.12)) op.str += r.chance(0.5) ? " 7" : " trailing words";  // text after the number
+            if (r.chance(0.04)) op.str = "  " + op.str;
             break;
         }
         case FN_h3ToString:
@@ -1084,6 +1087,10 @@ Op Gen::anyOp(int scale, int forcedFn) {
             op.ints = {r.chance(0.9) ? (int64_t)r.below((uint64_t)std::max<int64_t>(n, 1))
                                      : n + (int64_t)r.below(3),
                        cr};
+            if (r.chance(0.06)) op.ints[1] = r.chance(0.5) ? -1 : 16 + (int64_t)r.below(3);  // E_RES_DOMAIN
+            if (r.chance(0.06) && res > 0) op.ints[1] = (int64_t)r.below((uint64_t)res);      // E_RES_MISMATCH
+            if (r.chance(0.03)) op.ints[0] = -1 - (int64_t)r.below(5);                        // E_DOMAIN
+            if (r.chance(0.05)) op.cells[0] = damaged(p);
             break;
         }
         case FN_uncompactCellsSize:
@@ -1131,6 +1138,12 @@ Op Gen::anyOp(int scale, int forcedFn) {
             if (r.chance(0.3)) op.ints[0] = r.range(-400, 400), op.ints[1] = r.range(-400, 400);
             if (r.chance(0.3)) op.cells[0] = r.chance(0.5) ? pentagon((int)r.below(16)) : nearPentagon((int)r.below(16), 3);
             if (r.chance(0.05)) op.ints[0] = r.range(-2000000000LL, 2000000000LL);
+            if (r.chance(0.04)) {
+                // both coordinates near the int32 limits: the overflow guards of ijToIjk / ijkToCube
+                static const int64_t X[] = {2147483647LL, -2147483647LL - 1, 2147483646LL, -2147483647LL, 1431655765LL, -1431655765LL, 715827882LL};
+                op.ints[0] = X[r.below(7)];
+                op.ints[1] = X[r.below(7)];
+            }
             break;
         case FN_cellToVertex:
             op.cells = {anyCellOrBad()};
